@@ -235,6 +235,10 @@ func (m *Morass) write() {
 }
 
 func (m *Morass) setErr(err error) {
+	if err == nil {
+		// Keep an error recorded by an earlier writer.
+		return
+	}
 	m.errLock.Lock()
 	m._err = err
 	m.errLock.Unlock()
